@@ -1,6 +1,7 @@
 import J5V.Compile.NoPanicPkg
 import J5V.Compile.AstValueProofs
 import J5V.Compile.UsesAll
+import J5V.Compile.ValidPkg
 import J5V.Generated.SetextFacts
 import J5V.Generated.ImportsFacts
 /-!
@@ -55,6 +56,124 @@ theorem C07_compile_no_panic (b : Bundle) (hb : WfBundle b) (name : Str) :
   have := compileLinked_no_panic b hb name
   rw [hw] at this
   cases this
+
+/-! ## acceptance of the supported language -/
+
+/-- **The converter accepts the supported language** (`C07_accepts`, converter half). For every
+bundle that is valid — a decidable predicate on the sources alone (`ValidBundle`: package
+declarations match paths; imports well formed; every declaration, entities expanded, within the
+language `okItem`: references resolve to the right kind against the export tables computed from
+the sources, enum `in` / `notIn` / default-filter values name options, no array / map directly in
+an array / map, integer `exclusive*` rules come with their bound, no float rules [recorded
+finding], nothing both required and explicitly optional, services named with verbs and path
+parameters that exist, topic messages named; every dependency local or built in; acyclic package
+graph) — `CompilePackage` up to the link step succeeds for every package: parsing of imports,
+summaries, dependency loading and `ConvertJ5File` of every file report no error, whatever else the
+files contain. Any number of packages, files, declarations, any nesting depth. -/
+theorem C07_accepts_partial (b : Bundle) (r : Str → Nat) (hv : ValidBundle b r) (p : Pkg)
+    (hp : p ∈ b.pkgs) : ∃ fs, compilePkg b p.name = .ok fs :=
+  compilePkg_accepts b r hv p hp
+
+/-- the full statement: …and the result links -/
+def AcceptsAndLinks : Prop :=
+  ∀ (b : Bundle) (r : Str → Nat), ValidBundle b r → ∀ p ∈ b.pkgs, (compileLinked b p.name).isOk = true
+
+/-- the recorded finding `c07-rejected:valid-capture-inline-name`: an inline type whose default
+name equals the name of its top-level ancestor (`object Foo { field foo object { … } }`) -/
+def capturePkg : Pkg :=
+  { name := b!"foo.v1", files :=
+      [ .j5s b!"foo/v1/a.j5s" []
+          [.object (.mk b!"Foo" [.mk b!"foo" false false
+            (.objectInl [] [.mk b!"x" false false (.string [] false)] false [])] [] none)]
+          b!"foo.v1" ] }
+
+def captureBundle : Bundle := { pkgs := [capturePkg] }
+
+theorem captureBundle_valid : ValidBundle captureBundle (fun _ => 0) := by
+  refine ⟨by decide, fun n => by simp [captureBundle], by unfold WfBundle; decide, ?_⟩
+  intro p hp
+  simp only [captureBundle, List.mem_singleton] at hp
+  subst hp
+  exact ⟨rfl, by decide⟩
+
+/-- **the full statement fails on the model as on the code**: the capture witness is valid, is
+accepted by the converter, and does not link (j5convert writes the RELATIVE name `Foo.Foo`, which
+protobuf scoping resolves inside the nested `Foo.Foo`). What is missing for a `links` theorem is
+exactly the link half: for capture-free bundles with per-scope unique names, relative names
+resolve to the inline type and no symbol is declared twice — not proved (see notes). -/
+theorem C07_accepts_counterexample : ¬ AcceptsAndLinks := by
+  intro h
+  have := h captureBundle (fun _ => 0) captureBundle_valid capturePkg (by simp [captureBundle])
+  revert this
+  decide
+
+/-- non-vacuity of `C07_accepts_partial` beyond the capture witness: two packages, an import by
+last-but-one segment, a cross-file reference, an enum with list-rule default filters, a service
+with a path parameter, a topic, an entity — a valid bundle (rank: `bar.v1` above `foo.v1`) -/
+def validPkgs : List Pkg :=
+  [ { name := b!"foo.v1", files :=
+      [ .j5s b!"foo/v1/a.j5s" [] [.object (.mk b!"A" [.mk b!"x" false false (.string [] false)] [] none)]
+          b!"foo.v1" ] },
+    { name := b!"bar.v1", files :=
+      [ .j5s b!"bar/v1/b.j5s" [] [.enum { name := b!"E", pfx := [], opts := [b!"ONE"] }] b!"bar.v1",
+        .j5s b!"bar/v1/c.j5s" [⟨b!"foo.v1", []⟩]
+          [ .object (.mk b!"C" [ .mk b!"a" false false (.objectRef b!"foo" b!"A" false []),
+                                 .mk b!"e" false false (.enumRef [] b!"E" [] (some [b!"ONE"])),
+                                 .mk b!"m" true false (.map (.integer .int64 [⟨b!"minimum", .int 1⟩] false) []) ]
+              [] none),
+            .service { name := some b!"Svc", basePath := some b!"/bar", methods :=
+              [ { name := b!"Get", verb := .get, path := b!"/c/:cId",
+                  request := some [.mk b!"cId" true false (.key .uuid .nokey [] false)],
+                  response := some [.mk b!"c" false false (.objectRef [] b!"C" false [])] } ] },
+            .topic { name := b!"Pub", type := .publish [{ name := some b!"Ping", props := [] }] },
+            .entity { name := b!"thing", baseUrl := [],
+                      keys := [⟨.mk b!"thingId" false false (.key .uuid (.ek (.primary true) none) [] false), false⟩],
+                      data := [.mk b!"title" false false (.string [] false)], statuses := [b!"ACTIVE"],
+                      events := [.mk b!"Made" [] [] none], commands := [], summaries := [],
+                      query := some { eventsInGet := false, filters := [b!"ACTIVE"] }, nested := [] } ]
+          b!"bar.v1" ] } ]
+
+def validBundle : Bundle := { pkgs := validPkgs }
+def validRank (n : Str) : Nat := if n = b!"bar.v1" then 1 else 0
+
+example : ValidBundle validBundle validRank := by
+  refine ⟨by decide, fun n => by unfold validRank; split <;> decide, by unfold WfBundle; decide, ?_⟩
+  intro p hp
+  simp only [validBundle, validPkgs, List.mem_cons, List.mem_nil_iff, or_false] at hp
+  rcases hp with rfl | rfl
+  · exact ⟨rfl, by decide⟩
+  · exact ⟨rfl, by decide⟩
+
+/-- **A rule in isolation** (the import facts of E5 on the model): a file that holds nothing but
+one object with one field — of any scalar type, with ANY rule list the language supports, required
+or not, directly or as array items / map values — converts, and the generated file imports the
+file of every extension set on it. (Before 2a8c264 / 9a528a0 the imports were missing or the
+conversion panicked; the link step then failed for exactly such files.) -/
+theorem C07_isolated_rule (res : Resolver)
+    (hres : ∀ im, WfCtx { resolve := resolveTypeNoImport im res })
+    (f : Field) (req : Bool)
+    (hf : okProperty (fileCtx res b!"iso/v1/only.j5s" []) (.mk b!"f" req false f) = true) :
+    ∃ fs, convertFile res b!"iso/v1/only.j5s" []
+        [.object (.mk b!"Only" [.mk b!"f" req false f] [] none)] = .ok fs ∧
+      ∀ file ∈ fs, ∀ u ∈ file.uses, u = file.name ∨ u ∈ file.deps := by
+  obtain ⟨fs, hfs⟩ := convertFile_accepts res b!"iso/v1/only.j5s" []
+    [.object (.mk b!"Only" [.mk b!"f" req false f] [] none)] hres (by decide)
+    (by simp [okElems, itemsOfElem, WfItem, WfDecl, WfNested, okItem, okDecl, okNested, okProps, hf])
+  refine ⟨fs, hfs, ?_⟩
+  exact convertFile_uses_imported res _ _ _ fs hfs (by intro s hs; simp at hs)
+
+/-- every rule list is within the language for string / bool / bytes / date / decimal /
+timestamp / key fields; integer rules when `exclusive*` comes with its bound -/
+theorem C07_isolated_rule_scalars (c : Ctx) (d : Str) (rules : Rules) (lr : Bool) (fmt : IntFmt)
+    (kf : KeyFmt) (ek : EntKey) :
+    okField c d (.string rules lr) = true ∧ okField c d (.bool rules lr) = true ∧
+    okField c d (.bytes rules) = true ∧ okField c d (.date rules lr) = true ∧
+    okField c d (.decimal rules lr) = true ∧ okField c d (.timestamp rules) = true ∧
+    okField c d (.key kf ek rules lr) = true ∧
+    (intRulesErr rules = false → okField c d (.integer fmt rules lr) = true) := by
+  refine ⟨rfl, rfl, rfl, rfl, rfl, rfl, rfl, ?_⟩
+  intro h
+  simp [okField, h]
 
 /-! ## every generated file imports what it uses (the link precondition of E5, as a theorem) -/
 
